@@ -136,6 +136,22 @@ func c08Deviations() []reqDev {
 	add("time-pre-1970", "time", "", func(r *reqSpec) { r.signingTime = time.Date(1965, 3, 4, 5, 6, 7, 800, time.UTC) })
 	add("time-year-9999", "time", "", func(r *reqSpec) { r.signingTime = time.Date(9999, 12, 31, 23, 59, 58, 0, time.UTC) })
 	add("time-local-zone", "time", "", func(r *reqSpec) { r.signingTime = r.signingTime.Local() })
+	// instants inside the hour that a daylight-saving zone repeats when its clocks are set back (one wall-clock reading, two instants),
+	// carried in that zone: first and second pass, west and east of Greenwich
+	for _, f := range []struct {
+		n, zone string
+		utc     time.Time
+	}{{"new-york-first-pass-of-01:30", "America/New_York", time.Date(2025, 11, 2, 5, 30, 0, 0, time.UTC)}, {"new-york-second-pass-of-01:30", "America/New_York", time.Date(2025, 11, 2, 6, 30, 0, 0, time.UTC)},
+		{"berlin-first-pass-of-02:30", "Europe/Berlin", time.Date(2025, 10, 26, 0, 30, 0, 0, time.UTC)}, {"berlin-second-pass-of-02:30", "Europe/Berlin", time.Date(2025, 10, 26, 1, 30, 0, 0, time.UTC)}} {
+		f := f
+		add("time-in-the-repeated-hour-"+f.n, "time", "", func(r *reqSpec) {
+			loc, err := time.LoadLocation(f.zone)
+			if err != nil {
+				panic(mc.HarnessError{Msg: "zone database: " + err.Error()})
+			}
+			r.signingTime = f.utc.In(loc)
+		})
+	}
 	// expiry
 	add("expiry+1s", "expiry", "", func(r *reqSpec) { r.expiry = r.signingTime.Truncate(time.Second).Add(time.Second) })
 	add("expiry+1s-with-fraction", "expiry", "", func(r *reqSpec) {
